@@ -4,8 +4,12 @@ package p2p
 // Wrappers only, no logic.
 
 import (
+	"crypto/ecdsa"
 	"hash"
 	"io"
+	"net"
+
+	"github.com/zenon-network/go-zenon/p2p/discover"
 )
 
 // VerifFrameRW exposes the unexported rlpxFrameRW.
@@ -18,3 +22,22 @@ func VerifNewFrameRW(conn io.ReadWriter, aesKey, macKey []byte, egressMAC, ingre
 
 func (f *VerifFrameRW) WriteMsg(msg Msg) error { return f.rw.WriteMsg(msg) }
 func (f *VerifFrameRW) ReadMsg() (Msg, error)  { return f.rw.ReadMsg() }
+
+// VerifServerHandshakes runs, on fd, the transport calls Server.setupConn makes for an inbound connection: newRLPX, the
+// encryption handshake as receiver, the protocol handshake. (The server's own checkpoints between the two are not part
+// of the transport and are not run.)
+func VerifServerHandshakes(fd net.Conn, prv *ecdsa.PrivateKey) error {
+	t := newRLPX(fd)
+	if _, err := t.doEncHandshake(prv, nil); err != nil {
+		return err
+	}
+	_, err := t.doProtoHandshake(&protoHandshake{Version: baseProtocolVersion, Name: "verif-c15", ID: discover.PubkeyID(&prv.PublicKey)})
+	return err
+}
+
+// VerifDialEncHandshake runs the encryption handshake as initiator towards remote on fd (what a dialing peer does first).
+func VerifDialEncHandshake(fd net.Conn, prv *ecdsa.PrivateKey, remote *ecdsa.PublicKey) error {
+	t := newRLPX(fd)
+	_, err := t.doEncHandshake(prv, &discover.Node{ID: discover.PubkeyID(remote)})
+	return err
+}
